@@ -104,6 +104,24 @@ class Effects:
             for e in self.own_events(q):
                 yield q, e
 
+    def anchor_events(self):
+        """(function, event) over the functions that are not helpers, each with its helpers expanded: a who-may rule then
+        judges a helper where it is used (its parameters bound, under the caller's name), never on its own."""
+        if not hasattr(self, '_anchor_events'):
+            out = []
+            for q in sorted(self.summ):
+                if is_helper(self.p, q) or '<locals>' in q:
+                    continue
+                seen = set()
+                for e in self.deep_events(q):
+                    key = (id(e.node), e.kind, e.ctx and id(e.ctx[-1].node))
+                    if key in seen:
+                        continue
+                    seen.add(key)
+                    out.append((q, e))
+            self._anchor_events = out
+        return self._anchor_events
+
     # ------------------------------------------------------------------ call graph
     def _build_callgraph(self) -> None:
         self.callees = defaultdict(set)   # q -> set of qnames (package and external)
@@ -480,7 +498,7 @@ class Effects:
         global gq (stores *to* the global's own binding excluded)."""
         out = []
         g = ('g', gq)
-        for q, e in self.all_events():
+        for q, e in self.anchor_events():
             for nm, v in self.terms_of(e):
                 if nm == 'guard':
                     continue
